@@ -214,6 +214,8 @@ func checkC17(c *Ctx) {
 		rc.Check(filters, comp.Name(), "filters removed names", comp.Body.Pos(), "removeCallbacks", "compile no longer drops the callbacks whose name was removed")
 	}
 
+	checkC17Sorter(c)
+
 	// ---- once / conflict / handlers ----
 	ro := c.Rule("C17.once", "sorter: a name enters the sorted list only when absent; the fallback precedes every successful return", 4)
 	rk := c.Rule("C17.conflict", "sorter: conflict errors `current > named` (before) and `current < named` (after); before-insertion at the named index", 3)
@@ -325,7 +327,6 @@ func checkC17(c *Ctx) {
 		if fn, _ := typeutil.Callee(sinfo, ce).(*types.Func); fn == nil || fn.FullName() != "fmt.Errorf" {
 			return true
 		}
-		nErr++
 		facts, _ := gs.At(rs.Pos())
 		// which side: the enclosing `if c.before != ""` / `if c.after != ""`
 		side := ""
@@ -339,6 +340,10 @@ func checkC17(c *Ctx) {
 				side = "after"
 			}
 		}
+		if side == "" {
+			return true // not a conflict test of the before/after arms (e.g. the recursion bound)
+		}
+		nErr++
 		// the comparison fact between two getRIndex results
 		cmp := ""
 		for f := range facts {
